@@ -26,6 +26,9 @@ func cfgFor(prop string, r *Rng) GenCfg {
 	case "C24":
 		f["storage"], f["resource"], f["container"], f["control"] = 4, 3, 2, 2
 		c.ScriptRate, c.FaultRate, c.FailRate = 0.3, 0.5, 0.25
+	case "C28":
+		f["storage"], f["resource"], f["container"], f["attachment"], f["event"], f["control"] = 3, 3, 2, 1, 1, 1
+		c.FaultRate, c.FaultKinds, c.NoiseRate = 0.6, []string{"F1", "F2"}, 0.05
 	case "C02":
 		f["resource"], f["attachment"], f["storage"] = 10, 2, 1
 	case "C05":
